@@ -100,4 +100,7 @@ def run(repo='/repo', tier='quick'):
     res.assumptions.append('equality with the reference split / decoding is a statement about values and is not decided: the claim is thin')
     from . import sentinel
     sentinel.run(db, res, 'C15.d', lambda f: f.loc.startswith('htp/htp_urlencoded.c'), 1)
+    from . import coupdate
+    coupdate.run(db, res, 'C15.e', [('htp_param_t', 'value', b, 3, 'a parameter record is filled completely where it is made') for b in ('name', 'source', 'parser_id')],
+                 'fields that change together: wherever a parameter record gets its value it also gets its name, its source and the id of the parser that made it (query string, urlencoded body, multipart)')
     return res
